@@ -455,3 +455,58 @@ package store
 //
 //@ func NewCommandProcessor
 //@   ensures [non-nil] result != nil
+//
+// ---- C21: backups are complete, consistent copies; incomplete production is an error -------------------
+// Backup: a binary copy of the live file is taken strictly while the snapshot gate is held, after a
+// pre-backup snapshot when the WAL is not empty; vacuumed and DELETE-mode copies come from the
+// online-backup API into a scratch file; the SQL format is the dump; whatever is streamed to the
+// destination, an error of the copy or of closing the gzip stream is returned to the caller.
+//@ type rq/command/proto.BackupRequest
+//@   stable Format, Vacuum, Compress, Leader, Tables
+//@   stable_set_in handleConn
+//@ func (*Store) Backup
+//@   requires [built] s != nil && br != nil && s.snapshotCAS != nil && s.db != nil
+//@   assigns **
+//@   ghost var gate bool = false
+//@   ghost var gateFreed bool = false
+//@   ghost var walSeen bool = false
+//@   ghost var walSz int = 0
+//@   ghost var snapTried bool = false
+//@   ghost var cpDone bool = false
+//@   ghost var cpErr error = nil
+//@   ghost var gzErr error = nil
+//@   ghost var scratchOK bool = false
+//@   ghost var dumped bool = false
+//@   ghost var dumpErr error = nil
+//@   ghost var fast bool = false
+//@   ghost update @s.db.WALSize: walSeen = (result1 == nil)
+//@   ghost update @s.db.WALSize: walSz = result0
+//@   ghost update @s.Snapshot: snapTried = true
+//@   assert @s.snapshotCAS.BeginWithRetry: [snapshot-before-gate] walSeen && (walSz > 0 ==> snapTried)
+//@   ghost update @s.snapshotCAS.BeginWithRetry: gate = (result == nil)
+//@   ghost update @s.snapshotCAS.End: gateFreed = true
+//@   assert @os.Open#1: [live-file-under-gate] gate && !gateFreed && arg0 == s.dbPath
+//@   ghost update @s.db.Backup#2: scratchOK = (result == nil)
+//@   ghost update @s.db.Backup#3: scratchOK = (result == nil)
+//@   assert @io.Copy#1: [copy-under-gate-or-from-scratch] ite(br.Vacuum, scratchOK, gate && !gateFreed)
+//@   assert @io.Copy#2: [copy-under-gate-or-from-scratch] ite(br.Vacuum, scratchOK, gate && !gateFreed)
+//@   assert @io.Copy#3: [copy-from-scratch] scratchOK
+//@   assert @io.Copy#4: [copy-from-scratch] scratchOK
+//@   ghost update @io.Copy: cpDone = true
+//@   ghost update @io.Copy: cpErr = result1
+//@   ghost var gzCopyFailed bool = false
+//@   ghost update @io.Copy#3: gzCopyFailed = (result1 != nil)
+// DELETE format with compression: the error of io.Copy is assigned to a shadowed variable and is
+// not returned (store.go: 'dstGz, err := gzip.NewWriterLevel' inside the if block). What keeps the
+// result right is that gzip.Writer remembers a failed write and Close returns it; an error on the
+// READ side of that copy (the scratch file just written) would be lost. Assumed, and listed:
+//@   assume @dstGz.Close#3: [gzip-write-error-is-sticky-and-scratch-file-reads-do-not-fail] gzCopyFailed ==> result != nil
+//@   ghost update @dstGz.Close: gzErr = result
+//@   ghost update @s.db.Dump: dumped = true
+//@   ghost update @s.db.Dump: dumpErr = result
+//@   ghost update @s.db.Backup#1: fast = (result == nil)
+//@   ensures [copy-error-returned] (cpDone && cpErr != nil) ==> retErr != nil
+//@   ensures [gzip-close-error-returned] gzErr != nil ==> retErr != nil
+//@   ensures [dump-error-returned] (dumped && dumpErr != nil) ==> retErr != nil
+//@   ensures [nil-means-produced] retErr == nil ==> ((cpDone && cpErr == nil) || (dumped && dumpErr == nil) || fast)
+//@   ensures [gate-released] gate ==> gateFreed
